@@ -757,6 +757,12 @@ func (s *Server) runElection(id string, elecID *spb.Uint128) (*spb.ModifyRespons
 
 	verifPoint("server.runElection.beforeSet")
 	if nm {
+		if s.curMaster != id && s.masterRIB != nil {
+			// The primary has changed. Operations of the previous primary that are still
+			// pending must not be processed further, and their results must never be
+			// sent to the new primary.
+			s.masterRIB.DropPending()
+		}
 		s.curElecID = elecID
 		s.curMaster = id
 	}
